@@ -712,7 +712,10 @@ func c09SkipSweep(c *rt.Ctx, r *rand.Rand) {
 			val = string(bytes.TrimSpace(gen.Doc(r, 2)))
 		}
 		w1, w2 := wsPick(r), wsPick(r)
-		unk := `"zz":` + w1 + val + w2
+		// the unknown member's name has its own escapes (the key scanner for unmatched names is a
+		// separate routine)
+		ukey := []string{"zz", `z\"z`, `\\`, `k\\\"`, bsU("0041") + "x", `\"`, "é" + `\n`, "zz"}[(c.Idx/8+k)%8]
+		unk := `"` + ukey + `":` + w1 + val + w2
 		var doc string
 		switch (c.Idx/8 + k) % 6 {
 		case 0:
